@@ -22,6 +22,7 @@ first (`loadNode`, trie.go:518-545), a superset of the loads of the real code.
   sync                     -> n=.. dg=.. ch=..
   reset                    -> ok
   restore <idx> <k>=<v>,.. [<sched>] -> r=<root> n=.. dg=.. ch=..   (Billet restore of the trie with these contents, the state of height idx, into an empty store; sched: 0/1 per restoration = persisted before it)
+  jump <idx> <k>=<v>,.. <sched> -> r=<root> up=<puts>/<dels> n=.. dg=.. ch=..   (CleanStorage, Billet restore, Module.JumpToState)
   get <h> <key>            -> <value> | none
   wild                     -> ok
   sub: p:<key>:<val>  d:<key>  b:<key>=<val|del>,...
@@ -226,6 +227,22 @@ def step (d : DSt) (ws : List String) : DSt × String :=
       ({ d with c := { d.c with root := t, rc := [], lay := l, roots := [(i, rootHash H t)], hist := [(i, t)], next := i + 1 },
                 printed := v, lazy := true },
         s!"r={Hex.encode (rootHash H t)} {storeObs [] v}")
+    | _, _ => (d, "bad-op")
+  | "jump" :: idx :: es :: rest =>
+    -- state sync + Module.JumpToState on the module of this case: CleanStorage, Billet restore of the
+    -- trie with these contents (persist schedule `sched`), the restored trie becomes the live trie in
+    -- the module's own mode
+    match idx.toNat?, (if es == "-" then some [] else (splitOn es ',').mapM parseKV) with
+    | some i, some m =>
+      let sched : List Bool := match rest with
+        | [sc] => sc.toList.map (· == '1')
+        | _ => []
+      let t := putBatch .empty (mapToBatch m)
+      let l := jumpLay H d.c.mode d.c.lay t sched
+      let v := l.view
+      ({ d with c := { d.c with root := t, rc := [], lay := l, roots := [(i, rootHash H t)], hist := [(i, t)], next := i + 1 },
+                printed := v, lazy := true },
+        s!"r={Hex.encode (rootHash H t)} {upStr l} {storeObs d.printed v}")
     | _, _ => (d, "bad-op")
   | ["wild"] => (d, "ok")
   | ["get", h, k] =>
